@@ -274,6 +274,7 @@ bool td_implemented(long sel) { return sel == 4 || sel == 5 || sel == 6 || sel =
 int bu_incl(const BU& a, const BU& b, long sel, long via) {
 	VATA::InclParam ip; Options o; set_ip(SELS[sel], ip, o);
 	try {
+		if (via == 2) return BU::CheckInclusion(a, b) ? 1 : 0;                 // default parameters
 		if (via == 0 && (!ip.GetUseSimulation() || sel == 5)) return BU::CheckInclusion(a, b, ip) ? 1 : 0;   // sel 5 computes its simulation itself
 		Arguments args; args.options = o; return ::CheckInclusion<BU>(a, b, args) ? 1 : 0;
 	} catch (const VATA::NotImplementedException&) { count(c_notimpl_thrown); return 2; }
@@ -313,7 +314,8 @@ void op_incl(const Step& s) {
 	bool bu = s.arg(3) & 1; long sel = mod(s.arg(2), N_SEL), via = s.arg(4) & 1; Client& c = CL(s);
 	if (bu) {
 		size_t i = HI(s, 0, true), j = HI(s, 1, true);
-		const std::string site = std::string("bdd_incl:bu:") + SELS[sel].name + ((via || (SELS[sel].sim && sel != 5)) ? ":cli" : ":api");
+		if (s.arg(4) == 2) { via = 2; sel = 0; }
+		const std::string site = std::string("bdd_incl:bu:") + SELS[sel].name + (via == 2 ? ":default-overload" : (via || (SELS[sel].sim && sel != 5)) ? ":cli" : ":api");
 		api_begin(); api_site(site, SELS[sel].down ? BUDGET_INCONCLUSIVE : BUDGET_HANG, SELS[sel].down ? 3000000 : 30000000);
 		int v = bu_incl(*c.h[i].bu, *c.h[j].bu, sel, via); observe(uint64_t(v));
 		// through the CLI protocol "up-sim" asks bdd-bu for an upward simulation, which it reports as not implemented
@@ -407,7 +409,7 @@ Plan plan_C07(Rng& r, const std::string&) {
 				bool bu = r.chance(2, 5); long sel;
 				if (bu) sel = r.below(100) < 88 ? (r.chance(1, 2) ? 0 : 5) : long(r.below(N_SEL));
 				else sel = r.below(100) < 90 ? 4 + long(r.below(4)) : long(r.below(N_SEL));
-				g.out.push_back(gen::mk(c, "bdd_incl", {bu ? abu : atd, bu ? bbu : btd, sel, bu, long(r.below(2))}));
+				g.out.push_back(gen::mk(c, "bdd_incl", {bu ? abu : atd, bu ? bbu : btd, sel, bu, long(bu && r.chance(1, 10) ? 2 : r.below(2))}));
 			}
 		}
 		progs.push_back(g.out);
